@@ -94,6 +94,10 @@ func c18Conf(c *fw.Case) (o fw.Outcome) {
 	for i := range cfg.GnbID {
 		cfg.GnbID[i] &= 0x7f
 	}
+	if r.Intn(4) == 0 {
+		cfg.GnbID = textOctets(r, len(cfg.GnbID))
+		o.Tag("text-like-gnb-id")
+	}
 	// strings made of characters that shells, environment expansion, printf-style formatting and YAML itself treat
 	// specially: a configuration VALUE is data, whatever it looks like (the file is written with proper YAML quoting)
 	if r.Intn(2) == 0 {
